@@ -270,6 +270,29 @@ func main() {
 			c.Sample(map[string]interface{}{"file": "two X25519 recipients", "identity": "passphrase"})
 		}
 
+		// files with very many recipients: every stanza is tried, the verdict stays the dedicated no-match error
+		c.Part("many-recipients")
+		c.Bound("files encrypted to 255, 256, 257, 1024, 1025 and 1100 X25519 recipients, decrypted with one, two and three identities that are none of them")
+		if c.Shard == 1%c.NShards {
+			var many []age.Recipient
+			for i := 0; i < 1100; i++ {
+				many = append(many, keys.X(1000+i).Rcpt)
+			}
+			strangers := []idn{{"X8", keys.X(8).Id, true}, {"X9", keys.X(9).Id, true}, {"S", keys.Scrypt("pw", 1).Id, true}}
+			for _, n := range []int{255, 256, 257, 1024, 1025, 1100} {
+				file, err := lab.Encrypt(many[:n], plain, false, nil)
+				if err != nil {
+					panic(err)
+				}
+				id := fmt.Sprintf("many.n%d", n)
+				c.DistinctOnce(ev.HashStr(id))
+				judge(id+".1", file, false, strangers[:1], fmt.Sprintf("file with %d X25519 recipients", n))
+				judge(id+".2", file, false, strangers[:2], fmt.Sprintf("file with %d X25519 recipients", n))
+				judge(id+".3", file, false, strangers, fmt.Sprintf("file with %d X25519 recipients", n))
+			}
+			c.Sample(map[string]interface{}{"recipients": 1025, "identities": "two X25519 keys that are not among them"})
+		}
+
 		// a well-formed file without any recipient stanza (MAC and payload keyed with a file key an attacker can choose):
 		// no identity corresponds to a recipient of it
 		c.Part("file-without-recipients")
